@@ -153,6 +153,27 @@ def t_composer():
 		out.append(defn('D29_VARIANT', 'variant', 'Repaired'))
 	else:
 		raise ValueError('D29 probe: HEAD + chunked composed %r' % (data[-40:],))
+	# finding D59: a Response object that was prepared with a Content-Encoding and is then given new headers (without the field) and a
+	# new body: does prepare take the coding of the first use back from the Body object (Repaired) or does it stay there (AsFound)?
+	r = Response(200)
+	r.body = b'first'
+	r.headers['Content-Encoding'] = 'gzip'
+	c = ComposedResponse(r, Request('GET', '/'))
+	c.prepare()
+	_compose(c)
+	if r.body.content_codec is None:
+		raise ValueError('D59 probe: prepare with Content-Encoding: gzip left no codec on the body')
+	r.headers = {}
+	r.body = b'second'
+	c = ComposedResponse(r, Request('GET', '/'))
+	c.prepare()
+	data = _compose(c)
+	if r.body.content_codec is None and data.endswith(b'\r\n\r\nsecond') and b'Content-Length: 6\r\n' in data:
+		out.append(defn('D59_VARIANT', 'variant', 'Repaired'))
+	elif r.body.content_codec is not None and not data.endswith(b'second') and b'Content-Length: 6\r\n' in data and b'Content-Encoding' not in data:
+		out.append(defn('D59_VARIANT', 'variant', 'AsFound'))
+	else:
+		raise ValueError('D59 probe: reused response composed %r' % (data[-60:],))
 	# finding D42: content coding applied per MAX_CHUNK_SIZE piece (AsFound) or to the whole content (Repaired)
 	calls = []
 	from httoop.codecs.application.zlib import Deflate
